@@ -83,6 +83,18 @@ def handle (st : DState) (line : String) : DState × String :=
           | _, _ => (st, "bad-op")
         | _, _, _ => (st, "bad-op")
       | _ => (st, "bad-op")
+    | "smfwrite" => match args with
+      | cs :: ty :: tpb :: rest =>
+        let groups := if rest.isEmpty then [] else (splitTracks rest).drop 1
+        match parseCharset cs, parseInt? ty, parseInt? tpb, groups.mapM (fun g => g.mapM parseTEvent) with
+        | some c, some t, some b, some trs => (st, showExcept showList (writeFile c ⟨t, b, trs⟩))
+        | _, _, _, _ => (st, "bad-op")
+      | _ => (st, "bad-op")
+    | "smfread" => match args with
+      | cs :: clip :: rest => match parseCharset cs, parseNats rest with
+        | some c, some bs => (st, showExcept LFile.show (readFile c (clip == "1") bs))
+        | _, _ => (st, "bad-op")
+      | _ => (st, "bad-op")
     | "preset" => ({ st with p := {} }, "ok")
     | "pfeed" => match parseInts args with
       | some bs => let (p, o) := pstep st.p (.feed bs); ({ st with p := p }, o.show)
